@@ -654,3 +654,65 @@ func applyDirSomewhere(r *core.Rand, items []*m.Item, d m.Dir) string {
 	}
 	return ""
 }
+
+// ExtraFaults violate rules the loader enforces beyond the enumeration of property C07 (the
+// reference checker reports them as Extra). They are used where only order independence is
+// judged (C17), never for C07's verdicts.
+var ExtraFaults = []Fault{
+	{"extension-kind-mismatch", func(r *core.Rand, items []*m.Item) ([]*m.Item, []string, bool) {
+		it := pickItem(r, itemsOfKind(items, false, "type", "interface", "input", "enum", "union", "scalar"))
+		if it == nil {
+			return nil, nil, false
+		}
+		// a correct extension and a wrong-kind extension of the same type
+		good := &m.Item{Kind: it.Kind, Extend: true, Name: it.Name}
+		switch it.Kind {
+		case "type", "interface":
+			good.Fields = []*m.FieldDef{{Name: "extraGood", Type: &m.Type{Name: "Int"}}}
+		case "input":
+			good.Fields = []*m.FieldDef{{Name: "extraGood", Type: &m.Type{Name: "Int"}}}
+		case "enum":
+			good.Values = []*m.EnumVal{{Name: "EXTRA_GOOD"}}
+		default:
+			good = nil
+		}
+		wrongKind := "interface"
+		if it.Kind == "interface" {
+			wrongKind = "type"
+		}
+		bad := &m.Item{Kind: wrongKind, Extend: true, Name: it.Name, Fields: []*m.FieldDef{{Name: "extraBad", Type: &m.Type{Name: "Int"}}}}
+		if good != nil {
+			items = append(items, good)
+		}
+		pos := r.Intn(len(items) + 1)
+		out := append(append(append([]*m.Item{}, items[:pos]...), bad), items[pos:]...)
+		return out, []string{it.Name}, true
+	}},
+	{"multiple-schema-definitions", func(r *core.Rand, items []*m.Item) ([]*m.Item, []string, bool) {
+		q := "Query"
+		for _, it := range items {
+			if it.Kind == "schema" && !it.Extend && len(it.OpTypes) > 0 {
+				q = it.OpTypes[0].Type
+			}
+		}
+		have := false
+		for _, it := range items {
+			if it.Kind == "schema" && !it.Extend {
+				have = true
+			}
+		}
+		if !have {
+			items = append(items, &m.Item{Kind: "schema", OpTypes: []m.OpType{{Op: "query", Type: q}}})
+		}
+		return append(items, &m.Item{Kind: "schema", OpTypes: []m.OpType{{Op: "query", Type: q}}}), []string{"schema"}, true
+	}},
+	{"unknown-directive-argument", func(r *core.Rand, items []*m.Item) ([]*m.Item, []string, bool) {
+		dn := "noArgs"
+		items = append(items, &m.Item{Kind: "directive", Name: dn, Locations: append([]string{}, AllLocations...), Repeatable: true})
+		owner := applyDirSomewhere(r, items, m.Dir{Name: dn, Args: []m.Arg{{Name: "nope", Value: &m.Value{Kind: m.VInt, Raw: "1"}}}})
+		if owner == "" {
+			return nil, nil, false
+		}
+		return items, []string{owner, "@" + dn}, true
+	}},
+}
